@@ -22,6 +22,11 @@ type ModeGroup struct {
 	Stmts []sem.Stmt `json:"stmts"`           // label-free instructions
 	Data  []string   `json:"data,omitempty"`  // data lines after the instructions (mode independent)
 	Texts []string   `json:"texts,omitempty"` // rendered statements (filled by the generator)
+	// Branch: "" none; "lead": the group starts with JMP to a label at its end (first statement after
+	// the directive is a label reference); "far": after the instructions a Jcc over 200 reserved bytes
+	// (in 16-bit mode this needs widening, i.e. a second assembly round)
+	Branch string `json:"branch,omitempty"`
+	Tag    int    `json:"tag,omitempty"`
 }
 
 type BitsCase struct {
@@ -40,11 +45,20 @@ func bitsDirective(m int) string {
 
 func (g *ModeGroup) body() string {
 	var sb strings.Builder
+	if g.Branch == "lead" {
+		fmt.Fprintf(&sb, "\tJMP zzlead%d\n", g.Tag)
+	}
 	for _, s := range g.Stmts {
 		sb.WriteString("\t" + s.Render() + "\n")
 	}
+	if g.Branch == "far" {
+		fmt.Fprintf(&sb, "\tJNE zzfar%d\n\tRESB 200\nzzfar%d:\n", g.Tag, g.Tag)
+	}
 	for _, d := range g.Data {
 		sb.WriteString("\t" + d + "\n")
+	}
+	if g.Branch == "lead" {
+		fmt.Fprintf(&sb, "zzlead%d:\n", g.Tag)
 	}
 	return sb.String()
 }
@@ -135,6 +149,21 @@ func checkC17(c BitsCase) Verdict {
 		b := segs[i]
 		off := 0
 		sens := false
+		if g.Branch == "lead" {
+			inst, err := x86asm.Decode(b, m)
+			rel, isRel := inst.Args[0].(x86asm.Rel)
+			if err != nil || inst.Op != x86asm.JMP || !isRel {
+				return fail("leadbranch|mode="+fmt.Sprint(m), "group %d (%d-bit): the leading JMP does not decode as a relative jump (% x)", i, m, head(b, 8))
+			}
+			if inst.Len+int(rel) != len(b) {
+				return fail("leadbranch|mode="+fmt.Sprint(m), "group %d (%d-bit): the leading JMP (% x) lands at offset %d of its group, the label is at %d", i, m, b[:inst.Len], inst.Len+int(rel), len(b))
+			}
+			if m == 32 && inst.DataSize != 32 {
+				return fail("leadbranch|mode=32", "group %d: JMP in 32-bit mode encoded with a 16-bit displacement", i)
+			}
+			off = inst.Len
+			sens = true
+		}
 		for _, st := range g.Stmts {
 			if off >= len(b) {
 				return fail("decode", "group %d (%d-bit): bytes end before %q", i, m, st.Render())
@@ -150,6 +179,17 @@ func checkC17(c BitsCase) Verdict {
 				sens = true
 			}
 			off += inst.Len
+		}
+		if g.Branch == "far" {
+			inst, err := x86asm.Decode(b[off:], m)
+			if err != nil {
+				return fail("farbranch", "group %d (%d-bit): the Jcc does not decode at offset %d: %v", i, m, off, err)
+			}
+			rel, isRel := inst.Args[0].(x86asm.Rel)
+			if sem.CanonOp(inst.Op.String()) != "JNE" || !isRel || int(rel) != 200 {
+				return fail("farbranch|mode="+fmt.Sprint(m), "group %d (%d-bit): JNE over 200 reserved bytes decodes as %q (% x)", i, m, x86asm.IntelSyntax(inst, 0, nil), b[off:off+inst.Len])
+			}
+			off += inst.Len + 200
 		}
 		if !sens {
 			modeSensitive = false
@@ -194,6 +234,7 @@ func genModeGroup(t *rapid.T, mode, eff int, first bool, used map[string]bool) M
 		d, _ := genDataStmt(t)
 		g.Data = append(g.Data, d)
 	}
+	g.Branch = rapid.SampledFrom([]string{"", "", "", "lead", "far"}).Draw(t, "gbranch")
 	return g
 }
 
@@ -213,7 +254,9 @@ var propC17 = &Prop[BitsCase]{
 			if mode != 0 {
 				eff = mode
 			}
-			c.Groups = append(c.Groups, genModeGroup(t, mode, eff, i == 0, used))
+			g := genModeGroup(t, mode, eff, i == 0, used)
+			g.Tag = i
+			c.Groups = append(c.Groups, g)
 		}
 		return c
 	},
